@@ -498,6 +498,12 @@ FIXED += [
      json.loads('{"result": "v19", "steps": [{"out": "v0", "table": "t0", "verb": "source"}, {"distinct": true, "in": "v0", "out": "v5", "right": "v0", "verb": "union"}, {"name": "r", "out": "v11", "table": "t0", "verb": "source"}, {"how": "left", "in": "v5", "on": [["fn", "le", [["col", {"n": "x", "v": "v11"}], ["col", {"n": "id", "v": "v5"}]], {}]], "out": "v12", "right": "v11", "suffix": "_r", "verb": "join"}, {"out": "v13", "table": "t0", "verb": "source"}, {"in": "v13", "out": "v14", "preds": [["fn", "ge", [["col", {"c": "x"}], ["lit", -15]], {}]], "verb": "filter"}, {"how": "left", "in": "v12", "on": [["fn", "le", [["col", {"n": "a", "v": "v5"}], ["col", {"n": "a", "v": "v14"}]], {}]], "out": "v16", "right": "v14", "verb": "join"}, {"in": "v16", "items": [["c", ["fn", "mean", [["col", {"n": "x", "v": "v16"}]], {}]]], "out": "v19", "verb": "summarize"}], "tables": [{"cols": [["id", "int64"], ["x", "int64"], ["a", "datetime"]], "name": "t0", "rows": [[12, -19, {"$dt": "2000-01-01T00:00:00"}], [4, 10, {"$dt": "1999-12-31T23:59:59"}]]}], "intermittent": true}')),
 ]
 
+FIXED += [
+    ('F69-polars-clip-int-float-bounds', 'C03', 'Polars clip of an integer expression with float bounds',
+     'Polars: int_expr.clip(-4.75, 338.375) truncated the bounds to integers (-4 instead of -4.75); static type Float, SQLite returns -4.75',
+     json.loads('{"result": "v1", "steps": [{"out": "v0", "table": "t0", "verb": "source"}, {"in": "v0", "items": [["c", ["fn", "clip", [["case", [[["col", {"c": "x"}], ["col", {"c": "id"}]]], ["lit", -7]], ["lit", -4.75], ["lit", 338.375]], {}]]], "out": "v1", "verb": "mutate"}], "tables": [{"cols": [["id", "int64"], ["k", "str"], ["y", "float64"], ["x", "bool"]], "name": "t0", "rows": [[1, "", 0.0, false]]}]}')),
+]
+
 
 def main():
     log = subprocess.run(["git", "-C", "/repo", "log", "--format=%h %s"], capture_output=True, text=True).stdout.splitlines()
